@@ -200,3 +200,165 @@ Section Fresh.
       revert En. apply pseudo_name_distinct; lia.
   Qed.
 End Fresh.
+
+(* ====================================================================================== *)
+(* 4. re-adding the arguments to a fresh builder                                           *)
+(* ====================================================================================== *)
+Definition keyed (l : list arg) : list (str * arg) := map (fun a => (a_name a, a)) l.
+(* the fresh builder after the command names and the arguments p have been added *)
+Definition ast (cn : list cname) (p : list arg) : fmt :=
+  Fmt None cn [] [] (keyed p) [] [] (existsb a_multi p) (existsb a_optional p).
+
+Lemma keyed_keys l : map fst (keyed l) = map a_name l.
+Proof. unfold keyed. rewrite map_map. reflexivity. Qed.
+Lemma keyed_app l1 l2 : keyed (l1 ++ l2) = keyed l1 ++ keyed l2.
+Proof. unfold keyed. apply map_app. Qed.
+Lemma keyed_id (l : list (str * arg)) :
+  Forall (fun na => fst na = a_name (snd na)) l -> keyed (map snd l) = l.
+Proof.
+  induction l as [|[k a] r IH]; intros H; [reflexivity|].
+  inversion H as [|? ? Hk Hr]; subst. cbn [map snd keyed fst] in *. unfold keyed in IH. rewrite (IH Hr).
+  cbn [fst snd] in Hk. now rewrite <- Hk.
+Qed.
+
+Lemma order_ok_mid_multi p a l : order_ok (p ++ a :: l) = true -> existsb a_multi p = false.
+Proof.
+  induction p as [|x r IH]; cbn [app existsb order_ok]; [reflexivity|]. intros H.
+  apply andb_prop in H as [H Hr]. apply andb_prop in H as [Hm _].
+  rewrite (IH Hr), orb_false_r. destruct (a_multi x); [|reflexivity].
+  destruct r; cbn [app] in Hm; discriminate.
+Qed.
+Lemma order_ok_mid_req p a l :
+  order_ok (p ++ a :: l) = true -> a_required a = true -> forallb a_required p = true.
+Proof.
+  induction p as [|x r IH]; cbn [app forallb order_ok]; [reflexivity|]. intros H Ha.
+  apply andb_prop in H as [H Hr]. apply andb_prop in H as [_ Hq].
+  rewrite (IH Hr Ha), andb_true_r. destruct (a_required x); [reflexivity|].
+  rewrite forallb_app in Hq. apply andb_prop in Hq as [_ Hq]. cbn [forallb] in Hq. rewrite Ha in Hq. discriminate.
+Qed.
+Lemma required_not_optional p :
+  forallb arg_valid p = true -> forallb a_required p = true -> existsb a_optional p = false.
+Proof.
+  induction p as [|x r IH]; cbn [forallb existsb]; [reflexivity|]. intros Hv Hr.
+  apply andb_prop in Hv as [Hx Hv]. apply andb_prop in Hr as [Hrx Hr]. rewrite (IH Hv Hr), orb_false_r.
+  unfold arg_valid in Hx. rewrite Hrx in Hx. destruct (a_optional x); [discriminate|reflexivity].
+Qed.
+
+Lemma add_args_seq cn rest : forall l prev,
+  NoDup (map a_name (prev ++ l)) -> order_ok (prev ++ l) = true -> forallb arg_valid (prev ++ l) = true ->
+  add_elements (ast cn prev) (map EArg l ++ rest) = add_elements (ast cn (prev ++ l)) rest.
+Proof.
+  induction l as [|a l IH]; intros prev Hnd Ho Hv.
+  - rewrite app_nil_r. reflexivity.
+  - cbn [map app add_elements].
+    assert (add_argument (ast cn prev) a = Ok (ast cn (prev ++ [a]))) as ->.
+    { unfold add_argument, ast. cbn [has_argument get_arguments get_arguments_all has_multi_all has_optional_all].
+      rewrite keyed_app, !existsb_app. cbn [keyed map existsb]. fold (keyed prev). rewrite !orb_false_r.
+      assert (shas (a_name a) (keyed prev) = false) as ->.
+      { apply notin_shas_false. rewrite keyed_keys. rewrite map_app in Hnd. cbn [map] in Hnd.
+        apply NoDup_remove_2 in Hnd. intros Hi. apply Hnd. apply in_or_app. now left. }
+      rewrite (order_ok_mid_multi _ _ _ Ho).
+      assert (a_required a && existsb a_optional prev = false) as ->.
+      { destruct (a_required a) eqn:Ea; [|reflexivity]. cbn [andb].
+        apply required_not_optional; [|exact (order_ok_mid_req _ _ _ Ho Ea)].
+        rewrite forallb_app in Hv. now apply andb_prop in Hv as [Hv _]. }
+      unfold sset. rewrite sset_absent; [reflexivity|].
+      apply notin_sget_none. rewrite keyed_keys. rewrite map_app in Hnd. cbn [map] in Hnd.
+      apply NoDup_remove_2 in Hnd. intros Hi. apply Hnd. apply in_or_app. now left. }
+    cbn [bind].
+    replace (prev ++ a :: l) with ((prev ++ [a]) ++ l) in * by (rewrite <- app_assoc; reflexivity).
+    apply IH; assumption.
+Qed.
+
+Lemma add_cnames_seq rest : forall l cn,
+  add_elements (ast cn []) (map ECName l ++ rest) = add_elements (ast (cn ++ l) []) rest.
+Proof.
+  induction l as [|c l IH]; intros cn; [now rewrite app_nil_r|].
+  cbn [map app add_elements]. unfold ast at 1. cbn [add_command_name bind keyed map existsb].
+  replace (cn ++ c :: l) with ((cn ++ [c]) ++ l) by (rewrite <- app_assoc; reflexivity).
+  apply IH.
+Qed.
+
+(* REQUIRED single-valued arguments in front keep the order rules *)
+Lemma order_ok_front p l :
+  forallb (fun a => a_required a && negb (a_multi a)) p = true -> order_ok l = true -> order_ok (p ++ l) = true.
+Proof.
+  induction p as [|x r IH]; intros Hp Hl; [exact Hl|].
+  cbn [forallb] in Hp. apply andb_prop in Hp as [Hx Hp]. apply andb_prop in Hx as [Hr Hm].
+  cbn [app order_ok]. rewrite Hr, (IH Hp Hl). destruct (a_multi x); [discriminate|reflexivity].
+Qed.
+
+(* ====================================================================================== *)
+(* 5. re-adding the options                                                                *)
+(* ====================================================================================== *)
+Definition onames (o : opt) : list str := o_long o :: olist (o_short o).
+Definition odisj (o1 o2 : opt) : Prop := forall n, In n (onames o1) -> In n (onames o2) -> False.
+(* no two options of the list share a long or short name *)
+Fixpoint opts_sep (l : list opt) : Prop :=
+  match l with [] => True | o :: r => (forall o', In o' r -> odisj o o') /\ opts_sep r end.
+
+Lemma odisj_sym o1 o2 : odisj o1 o2 -> odisj o2 o1.
+Proof. intros H n H2 H1. exact (H n H1 H2). Qed.
+Lemma opts_sep_app l1 l2 :
+  opts_sep l1 -> opts_sep l2 -> (forall a b, In a l1 -> In b l2 -> odisj a b) -> opts_sep (l1 ++ l2).
+Proof.
+  induction l1 as [|o r IH]; intros H1 H2 Hc; [exact H2|].
+  destruct H1 as [Ho Hr]. cbn [app opts_sep]. split.
+  - intros o' Hi. apply in_app_or in Hi as [Hi|Hi]; [now apply Ho|]. apply Hc; [now left|exact Hi].
+  - apply IH; [exact Hr|exact H2|]. intros a b Ha Hb. apply Hc; [now right|exact Hb].
+Qed.
+
+Lemma in_onames n o : In n (onames o) <-> n = o_long o \/ o_short o = Some n.
+Proof.
+  unfold onames. cbn [In]. destruct (o_short o) as [s|]; cbn [olist In]; split.
+  - intros [H|[H|[]]]; [now left|right; now subst].
+  - intros [H|H]; [now left|right; left; congruence].
+  - intros [H|[]]; now left.
+  - intros [H|H]; [now left|discriminate].
+Qed.
+
+Lemma add_option_taken f o f' n :
+  add_option f o = Ok f' -> opt_name_taken f' n = true -> In n (onames o) \/ opt_name_taken f n = true.
+Proof.
+  unfold add_option. destruct (opt_name_taken f (o_long o)); [discriminate|].
+  destruct (optname_taken f (o_short o)); [discriminate|].
+  destruct f as [b cn co cs ar os oss hm ho]. intros H. inversion H; subst. clear H.
+  unfold opt_name_taken. cbn [has_option_all has_command_option_all]. rewrite shas_sset.
+  rewrite in_onames.
+  destruct (str_eqb_spec n (o_long o)) as [->|Hn]; [intros _; left; now left|]. cbn [orb].
+  destruct (o_short o) as [s|]; [|intros H; now right].
+  rewrite shas_sset. destruct (str_eqb_spec n s) as [->|Hs]; [intros _; left; now right|]. cbn [orb].
+  intros H. now right.
+Qed.
+Lemma add_option_same f o f' :
+  add_option f o = Ok f' -> f_base f' = f_base f /\ f_args f' = f_args f /\ f_cnames f' = f_cnames f.
+Proof.
+  unfold add_option. destruct (opt_name_taken f (o_long o)); [discriminate|].
+  destruct (optname_taken f (o_short o)); [discriminate|].
+  destruct f as [b cn co cs ar os oss hm ho]. intros H. inversion H; subst. cbn. repeat split; reflexivity.
+Qed.
+Lemma add_option_accepts f o :
+  (forall n, In n (onames o) -> opt_name_taken f n = false) -> exists f', add_option f o = Ok f'.
+Proof.
+  intros H. unfold add_option. rewrite (H (o_long o)) by (apply in_onames; now left).
+  assert (optname_taken f (o_short o) = false) as ->.
+  { destruct (o_short o) as [s|] eqn:E; [|reflexivity]. cbn [optname_taken]. apply H. apply in_onames. now right. }
+  destruct f. eauto.
+Qed.
+
+Lemma add_opts_seq : forall l g,
+  opts_sep l -> (forall n o, In o l -> In n (onames o) -> opt_name_taken g n = false) ->
+  exists g', add_elements g (map EOpt l) = Ok g' /\ f_base g' = f_base g /\ f_args g' = f_args g.
+Proof.
+  induction l as [|o l IH]; intros g Hs Hfree; cbn [map add_elements]; [eauto|].
+  destruct Hs as [Ho Hs].
+  destruct (add_option_accepts g o) as [g1 E1]; [intros n Hn; apply (Hfree n o); [now left|exact Hn]|].
+  rewrite E1. cbn [bind].
+  destruct (IH g1 Hs) as [g' [E' [Hb Ha]]].
+  - intros n o' Hi Hn. destruct (opt_name_taken g1 n) eqn:Et; [|reflexivity].
+    destruct (add_option_taken g o g1 n E1 Et) as [Hin|Hold].
+    + exfalso. exact (Ho o' Hi n Hin Hn).
+    + rewrite (Hfree n o') in Hold; [discriminate|now right|exact Hn].
+  - destruct (add_option_same g o g1 E1) as [Hb1 [Ha1 _]].
+    exists g'. split; [exact E'|]. split; congruence.
+Qed.
